@@ -156,8 +156,13 @@ def hist_check(prop, tier, seed, runs, workers, secs):
         if rc != 0 or not os.path.exists(out):
             crashes.append(dict(start=start, count=n, rc=rc, marker=read_marker(infl), output=text[-2000:]))
             return None
-        with open(out) as f:
-            d = json.load(f)
+        try:
+            with open(out, "rb") as f:
+                d = json.loads(f.read().decode("utf-8"))
+        except (ValueError, UnicodeDecodeError):
+            # the worker's memory was corrupted badly enough to garble its own report
+            crashes.append(dict(start=start, count=n, rc="garbled output", marker=read_marker(infl), output=text[-2000:]))
+            return None
         os.remove(out)
         return d
 
@@ -228,7 +233,8 @@ def hist_check(prop, tier, seed, runs, workers, secs):
     known_hits = {}
     by_class = {}
     for v in sorted(violations, key=lambda v: int(v["run_index"])):
-        by_class.setdefault(v["violation"]["class"], v)
+        if "violation" in v:
+            by_class.setdefault(v["violation"]["class"], v)
     for vclass, v in sorted(by_class.items()):
         kinds_seq = v.get("history_kinds", [])
         path = os.path.join(REPLAYS, "%s-%s-%s-%s.json" % (prop, seed, v["run_index"], slug(vclass)))
@@ -245,19 +251,44 @@ def hist_check(prop, tier, seed, runs, workers, secs):
 
     # a worker that died in the history-VM phase after the fresh VM passed is itself a violation
     harness_errors = []
+    foreign_crashes = 0
     for c in crashes:
         m = c["marker"]
-        if prop == "C10" and m and m["valid"] == 1 and m["phase"] == 2:
+        attributable = False
+        if m and m["valid"] == 1 and prop == "C10" and m["phase"] == 2:
+            attributable = True
+        elif m and m["valid"] == 1 and prop == "C09":
+            # is it a C10 matter (e.g. stale compiled code trampling the heap)? Ask the C10 oracle
+            # about the very same scenario, in a process of its own.
+            probe_out = os.path.join(work, "crash-probe-%d.json" % m["index"])
+            rc, _ = run_chunk(binary, ["run", "--prop", "C10", "--gen", "C09", "--seed", str(seed), "--start", str(m["index"]), "--count", "1"], probe_out, os.path.join(work, "inflight-crash-probe"))
+            c10_says = False
+            try:
+                with open(probe_out) as f:
+                    c10_says = bool(json.load(f)["violation_classes"])
+            except Exception:
+                pass
+            if c10_says:
+                foreign_crashes += 1
+                continue
+            attributable = True
+        if attributable:
             idx = m["index"]
             r = subprocess.run([binary, "show", "--prop", prop, "--seed", str(seed), "--index", str(idx), "--json-only", "--truncate", str(m["op"] + 1)], stdout=subprocess.PIPE, stderr=subprocess.PIPE, text=True)
             path = os.path.join(REPLAYS, "%s-%s-%s-process-killed.json" % (prop, seed, idx))
             try:
                 rep = json.loads(r.stdout)
-                rep["violation"] = {"class": "history-dependent-panic-or-crash/process-killed", "at_op": m["op"], "detail": "the worker process died (status %s) while the history VM was executing operation %d; the fresh VM had passed" % (c["rc"], m["op"])}
+                if prop == "C10":
+                    vclass = "history-dependent-panic-or-crash/process-killed"
+                    detail = "the worker process died (status %s) while the history VM was executing operation %d; the fresh VM had passed" % (c["rc"], m["op"])
+                else:
+                    vclass = "context-crash/process-killed"
+                    detail = "the worker process died (status %s) around operation %d of this history, and the C10 oracle finds nothing wrong with the same history: code run on behalf of the VM wrote or jumped outside its buffers" % (c["rc"], m["op"])
+                rep["violation"] = {"class": vclass, "at_op": m["op"], "detail": detail}
                 with open(path, "w") as f:
                     json.dump(rep, f, indent=1)
-                unlisted.append(("history-dependent-panic-or-crash/process-killed", path, rep, True))
-                vclasses["history-dependent-panic-or-crash/process-killed"] = vclasses.get("history-dependent-panic-or-crash/process-killed", 0) + 1
+                unlisted.append((vclass, path, rep, True))
+                vclasses[vclass] = vclasses.get(vclass, 0) + 1
             except Exception:
                 harness_errors.append(c)
         else:
@@ -414,4 +445,14 @@ def main():
 
 
 if __name__ == "__main__":
-    sys.exit(main())
+    try:
+        code = main()
+    except SystemExit:
+        raise
+    except BaseException:
+        # never let a driver bug look like a verdict (an uncaught exception would exit with 1)
+        import traceback
+        traceback.print_exc()
+        print("HARNESS-ERROR: exception in the driver", flush=True)
+        code = 2
+    sys.exit(code)
